@@ -7,6 +7,7 @@ import numpy as np
 from vlib import core, prog, physics, h5oracle
 
 ASSUME = [
+    "two cases in 16 are 'scale' cases: a mesh of 513-1030 cells, and a first leg with 513 stored states continued from record 257-511 (or counted from the end)",
     "split points are whole numbers of steps (dyadic T1, T2 with steps*T exact) and, for RenormalizeCharge=n>0, the start record lies on a multiple of n so that the renormalisation schedules of both runs align; a step-count mismatch between the legs is a harness error, never a violation",
     "'within rounding': bit-exact where no renormalisation intervenes (RenormalizeCharge -1), 1e-5*max otherwise (RenormalizeCharge 0 renormalises once at every start-up, n>0 periodically)",
     "all three runs of a case share one warmed FFT wisdom directory",
@@ -33,6 +34,14 @@ def gen_case(seed, i, tier):
         o["InterpolationPoints"] = r.choice([2, 3])
     if r.chance(0.3):
         o["InitialDistZoom"] = r.choice([0.8, 1.3])
+    # half of the cases leave the linear optics: second / third order momentum compaction, sinusoidal RF (the parts of the dynamics that
+    # depend on the absolute energy and length scales of the phase space, which a continued run takes from the start file's context)
+    if i % 4 == 1:
+        o["alpha1"] = r.choice([2e-2, -1e-2, 0.3])
+    if i % 4 == 2:
+        o["LinearRF"] = False
+    if i % 8 == 3:
+        o["alpha2"] = r.choice([0.1, -0.2])
     prog.sprinkle(core.Rng("c11nuisance", seed, i), o, clamp_ok=True, padding_ok=(imp != "file"))      # the same in all three runs of a case
     T1 = r.choice([0.25, 0.5])
     T2 = r.choice([0.25, 0.5])
@@ -41,6 +50,23 @@ def gen_case(seed, i, tier):
     if ren > 0:
         o1 = ren * r.choice([1, 2])          # stored records on multiples of n
     which = r.choice([-1, -1, 0, 1, 2, -2, -3])
+    if i % 16 == 9:
+        # scale: a mesh beyond 512 cells (a handful of steps per leg: every stored state is 1-4 MB)
+        o["GridSize"] = r.choice([513, 640, 1030])
+        o["StepsPerTs"] = 16
+        T1 = T2 = 0.25
+        o1 = r.choice([1, 2]) if ren <= 0 else o1
+        o["_scale"] = "grid"
+    if i % 16 == 13:
+        # scale: a first leg with hundreds of stored states, continued from one far beyond the 256th
+        o["GridSize"] = 48
+        o["StepsPerTs"] = 2048
+        T1, T2 = 0.25, 1.0 / 64
+        o1 = 1
+        which = r.choice([300, 511, -2, 257, -200])
+        if ren > 0:
+            o["RenormalizeCharge"] = 1
+        o["_scale"] = "records"
     return o, T1, T2, o1, which
 
 
@@ -74,6 +100,7 @@ def run_case(args):
     # the results file of the first leg carries either of the two documented endings
     leg1name = "out.hdf5" if i % 3 == 1 else "out.h5"
     out["hdf5_ending"] = leg1name.endswith(".hdf5")
+    out["scale"] = o.get("_scale")
 
     go("warm", dict(outstep=0), 0.01)
     full, rf = go("full", dict(outstep=1, SavePhaseSpace=1), T1 + T2)
@@ -205,6 +232,10 @@ def run(ctx):
         ctx.ev("states_compared", res["compared"])
         if res.get("hdf5_ending"):
             ctx.ev("continuations_from_a_file_with_hdf5_ending")
+        if res.get("scale") and "worst" in res:
+            ctx.ev("continuations_at_scale." + res["scale"])
+        if "worst" in res and any(k in res["base"] for k in ("alpha1", "alpha2", "LinearRF")):
+            ctx.ev("continuations_with_nonlinear_optics")
         if res.get("exact"):
             ctx.ev("bit_exact_continuations")
         elif "worst" in res:
@@ -215,4 +246,5 @@ def run(ctx):
             ctx.inconcl(x)
         ctx.sample(dict(base=res["base"], states_compared=res["compared"]))
     refusals(ctx, sdir)
-    ctx.min_events = {"states_compared": 20 * n, "refusals_tried": 10, "bit_exact_continuations": n // 4}
+    ctx.min_events = {"states_compared": 20 * n, "refusals_tried": 10, "bit_exact_continuations": n // 4,
+                      "continuations_with_nonlinear_optics": n // 4, "continuations_at_scale.grid": 1, "continuations_at_scale.records": 1}
